@@ -155,14 +155,18 @@ def gen_env(rnd, nmsgs=None, big=False, oneof_defaults=False, wide=False):
             elif lab == 'REQ':
                 if t in SCALARS and rnd.random() < 0.25:
                     default = ('W', sample_word(rnd, t))
+                elif t == 'STRING' and rnd.random() < 0.35:
+                    default = ('S', [rnd.randint(1, 255) for _ in range(rnd.randint(0, 8))])
+                elif t == 'BYTES' and rnd.random() < 0.35:
+                    default = ('B', [rnd.randint(0, 255) for _ in range(rnd.randint(0, 8))])
                 fields.append(Field(ids[i], 'REQ', t, 'N', 0, 0, sub, default))
             elif lab == 'OPT':
                 if t in SCALARS and rnd.random() < 0.3:
                     default = ('W', sample_word(rnd, t))
                 elif t == 'STRING' and rnd.random() < 0.4:
-                    default = ('S', [rnd.randint(1, 255) for _ in range(rnd.randint(0, 5))])
+                    default = ('S', [rnd.randint(1, 255) for _ in range(rnd.choice([0, 1, 2, 3, 5, 13]))])
                 elif t == 'BYTES' and rnd.random() < 0.4:
-                    default = ('B', [rnd.randint(0, 255) for _ in range(rnd.randint(0, 5))])
+                    default = ('B', [rnd.randint(0, 255) for _ in range(rnd.choice([0, 1, 2, 3, 5, 13]))])
                 q = 'N' if t in ('STRING', 'MESSAGE') else 'H'
                 fields.append(Field(ids[i], 'OPT', t, q, 0, 0, sub, default))
             else:
@@ -248,7 +252,27 @@ def corner_envs():
                           F(5, 'OPT', 'STRING', 'N', 0, 0, None, ('S', [100]))], 0, 1),
               MsgDesc(3, [F(1, 'OPT', 'BYTES', 'H', 0, 0, None), F(2, 'REP', 'SFIXED32', 'K', 0, 0, None),
                           F(3, 'OPT', 'BOOL', 'H', 0, 0, None)], 0, 0)])
-    return [e1, e2, e3, e4, e5, e6]
+    # a message type that declares no fields at all, nested through every kind of member (it still carries unknown fields),
+    # and required string / bytes members with declared defaults
+    e7 = Env([MsgDesc(0, [F(1, 'REQ', 'INT32', 'N', 0, 0, None), F(2, 'OPT', 'MESSAGE', 'N', 0, 0, 1), F(3, 'REP', 'MESSAGE', 'K', 0, 0, 1),
+                          F(4, 'OPT', 'MESSAGE', 'C0', 0, 1, 1), F(5, 'OPT', 'INT32', 'C0', 0, 1, None), F(6, 'REQ', 'MESSAGE', 'N', 0, 0, 1),
+                          F(7, 'OPT', 'INT32', 'H', 0, 0, None), F(8, 'REQ', 'STRING', 'N', 0, 0, None, ('S', [114, 101, 113])),
+                          F(9, 'REQ', 'BYTES', 'N', 0, 0, None, ('B', [1, 2, 0, 4, 5, 6, 7, 8, 9, 10, 11, 12, 13])),
+                          F(10, 'OPT', 'BYTES', 'H', 0, 0, None, ('B', [99, 104, 97, 114, 97, 99, 116, 101, 114]))], 1, 0),
+              MsgDesc(1, [], 0, 1)])
+    # oneof members that carry a second descriptor flag (deprecated), inside a message that can be split over occurrences:
+    # the lowest-numbered member a deprecated 32-bit scalar, 64-bit and pointer members beside it
+    e8 = Env([MsgDesc(0, [F(1, 'OPT', 'MESSAGE', 'N', 0, 0, 1), F(2, 'REP', 'MESSAGE', 'K', 0, 0, 1)], 0, 0),
+              MsgDesc(1, [F(1, 'OPT', 'INT32', 'C0', 0, 1, None), F(2, 'OPT', 'INT64', 'C0', 0, 1, None),
+                          F(3, 'OPT', 'DOUBLE', 'C0', 0, 1, None), F(4, 'OPT', 'STRING', 'C0', 0, 1, None),
+                          F(5, 'OPT', 'MESSAGE', 'C0', 0, 1, 2), F(6, 'OPT', 'STRING', 'C1', 0, 1, None),
+                          F(7, 'OPT', 'FIXED64', 'C1', 0, 1, None), F(8, 'OPT', 'BOOL', 'C1', 0, 1, None),
+                          F(9, 'OPT', 'INT32', 'H', 0, 0, None)], 2, 1),
+              MsgDesc(2, [F(1, 'OPT', 'INT32', 'H', 0, 0, None), F(2, 'REP', 'INT32', 'K', 0, 0, None)], 0, 0)])
+    for f in e8.msgs[1].fields:
+        if f.id in (1, 4, 5, 6):
+            f.deprecated = 1
+    return [e1, e2, e3, e4, e5, e6, e7, e8]
 
 
 # ---------------------------------------------------------------- messages
@@ -309,15 +333,22 @@ def gen_bytes(rnd, nul_ok=True, maxlen=None):
 def gen_cell(rnd, env, f, depth, in_array=False, canon=False):
     t = f.type
     if t in SCALARS:
+        if t == 'BOOL' and not canon and rnd.random() < 0.3:
+            # protobuf_c_boolean is an int: any non-zero value is "true" (mode & 0x100, -1, ...)
+            return ('W', rnd.choice([2, 255, 256, 0x10000, 0x80000000, 0xffffffff]))
         return ('W', sample_word(rnd, t))
     if t == 'STRING':
         if not canon and not in_array and f.default is not None and rnd.random() < 0.3:
             return ('T', 'D')          # the pointer is the default object itself: treated as absent by the serialisers
+        if not in_array and f.default is not None and len(f.default[1]) > 0 and rnd.random() < 0.4:
+            return ('T', ('H', gen_bytes(rnd, nul_ok=False, maxlen=len(f.default[1]))))
         return ('T', ('H', gen_bytes(rnd, nul_ok=False)))
     if t == 'BYTES':
         if not canon and not in_array and f.default is not None and rnd.random() < 0.2:
             return ('B', len(f.default[1]), 'D')
         b = gen_bytes(rnd)
+        if not in_array and f.default is not None and len(f.default[1]) > 0 and rnd.random() < 0.4:
+            b = gen_bytes(rnd, maxlen=len(f.default[1]))        # a value that would fit in the default's storage
         if not b and not in_array and rnd.random() < 0.5:
             return ('B', 0, 'N')
         if not b:
